@@ -479,14 +479,31 @@ pub fn render(case: &Case) -> Rendered {
                 };
                 let r = em.fresh("r");
                 em.stmt(&format!("{} :: map(c, {})", r, map_src(f, ety, &out, uni)));
-                let res: Vec<Val> = list.iter().map(|x| map_eval(f, x, uni)).collect();
+                let mut res: Vec<Val> = list.iter().map(|x| map_eval(f, x, uni)).collect();
                 em.obs(&r, show_list(&res), "map-result");
+                // the result is a list of its own: changing it does not change the source list
+                if out == *ety {
+                    if let Some(k) = (0..uni.len()).find(|k| key_ok(*k)) {
+                        em.stmt(&format!("list.push({}, {})", r, uni[k].lit()));
+                        res.push(uni[k].clone());
+                        em.obs(&r, show_list(&res), "map-result-after-push");
+                        em.obs("c", show_list(&list), "source-after-push-to-map-result");
+                    }
+                }
             }
             (Kind::List, Op::Filter(p)) if pred_ok(p, ety, uni) => {
                 let r = em.fresh("r");
                 em.stmt(&format!("{} :: filter(c, {})", r, pred_src(p, ety, uni)));
-                let res: Vec<Val> = list.iter().filter(|x| pred_eval(p, x, uni)).cloned().collect();
+                let mut res: Vec<Val> = list.iter().filter(|x| pred_eval(p, x, uni)).cloned().collect();
                 em.obs(&r, show_list(&res), "filter-result");
+                // the result is a list of its own: changing it does not change the source list
+                if let Some(k) = (0..uni.len()).find(|k| key_ok(*k)) {
+                    em.stmt(&format!("list.push({}, {})", r, uni[k].lit()));
+                    res.push(uni[k].clone());
+                    em.obs(&r, show_list(&res), "filter-result-after-push");
+                    em.obs("c", show_list(&list), "source-after-push-to-filter-result");
+                    em.label(if res.len() == list.len() + 1 { "filter:kept-everything-then-mutated" } else { "filter:dropped-some-then-mutated" });
+                }
             }
             (Kind::List, Op::Fold(f)) => {
                 let (init, out, body) = match fold_parts(f, ety) {
